@@ -4,10 +4,10 @@
 # usage: tools/verify_seed.sh <seed dir with patch.diff> <demo file> <package dir relative to repo root> <test regex> [count]
 S=$(readlink -f "$1"); DEMO=$2; PKG=$3; RX=$4; CNT=${5:-3}
 export GOFLAGS=-mod=mod GOPROXY=off GOSUMDB=off GOTOOLCHAIN=local
-R=/tmp/srepo
+R=/tmp/srepo$MUT_ID
 if [ ! -d $R ]; then git -C /repo worktree add -q --detach $R HEAD || exit 2; fi
 git -C $R checkout -q --detach "$(git -C /repo rev-parse HEAD)"; git -C $R checkout -- .; git -C $R clean -fdq
-trap 'git -C /tmp/srepo checkout -- . >/dev/null 2>&1; git -C /tmp/srepo clean -fdq' EXIT
+trap "git -C $R checkout -- . >/dev/null 2>&1; git -C $R clean -fdq" EXIT
 MOD=.; case "$PKG" in v2/*) MOD=v2;; esac
 REL=${PKG#v2/}
 cp "$S/$DEMO" "$R/$PKG/" || exit 2
